@@ -107,7 +107,7 @@ func runCheck(prop, tier, root string, seed int) int {
 	var units []*Unit
 	for _, k := range prog.contractKeysSorted() {
 		fc := prog.cs.Funcs[k]
-		if fc.Extern || !hasProp(fc.Props, prop) {
+		if fc.Extern || fc.noUnit() || !hasProp(fc.Props, prop) {
 			continue
 		}
 		units = append(units, prog.GenFunc(k, GenOpts{}))
